@@ -517,7 +517,19 @@ func (c *chk) userLevel(ukeys [][]byte) {
 	for i := 0; i < m-1; i++ {
 		b, x, sh, ca, cb := ints(m), ints(m), ints(m), ints(m), ints(m)
 		for j := i + 1; j < m; j++ {
-			r := c.ucmp.Separator(nil, ukeys[i], ukeys[j])
+			// "Separator appends a sequence of bytes x to dst such that a <= x && x < b": every other call hands in a
+			// non-empty dst; the law is judged on what was appended, and dst itself must come back untouched in front of it
+			var r []byte
+			if (i+j)%2 == 1 {
+				dst := []byte("dst:")
+				if r = c.ucmp.Separator(dst, ukeys[i], ukeys[j]); r != nil {
+					if bytes.HasPrefix(r, []byte("dst:")) {
+						r = r[4:]
+					} // else: judged as it is (the law will not hold)
+				}
+			} else {
+				r = c.ucmp.Separator(nil, ukeys[i], ukeys[j])
+			}
 			b = append(b, 2*(j+1))
 			c.stats["usep_calls"]++
 			if r == nil {
@@ -536,7 +548,14 @@ func (c *chk) userLevel(ukeys [][]byte) {
 	}
 	b, x, cb := ints(m), ints(m), ints(m)
 	for j := 0; j < m; j++ {
-		r := c.ucmp.Successor(nil, ukeys[j])
+		var r []byte
+		if j%2 == 1 {
+			if r = c.ucmp.Successor([]byte("dst:"), ukeys[j]); r != nil && bytes.HasPrefix(r, []byte("dst:")) {
+				r = r[4:]
+			}
+		} else {
+			r = c.ucmp.Successor(nil, ukeys[j])
+		}
 		b = append(b, 2*(j+1))
 		c.stats["usucc_calls"]++
 		if r == nil {
